@@ -16,12 +16,28 @@ pub fn p_harmonic(n: u64, p: u32) -> f64 {
 
 /// Returns the PMF of the hypergeometric distribution.
 pub fn hypergeometric_pmf(size: u64, successes: u64, draws: u64, observed: u64) -> f64 {
-    if observed > draws {
+    if observed > draws || observed > successes || draws - observed > size - successes {
         0.0
     } else {
-        binomial(successes, observed) * binomial(size - successes, draws - observed)
-            / binomial(size, draws)
+        let denominator = binomial(size, draws);
+        let pmf = binomial(successes, observed) * binomial(size - successes, draws - observed)
+            / denominator;
+
+        if denominator.is_finite() && pmf.is_finite() {
+            pmf
+        } else {
+            // The binomial coefficients overflow f64 for large sizes (from around 1030),
+            // so fall back to calculating in log-space
+            (ln_binomial(successes, observed) + ln_binomial(size - successes, draws - observed)
+                - ln_binomial(size, draws))
+            .exp()
+        }
     }
+}
+
+/// Calculate the natural logarithm of the binomial coefficient `n` choose `k` for `k <= n`.
+fn ln_binomial(n: u64, k: u64) -> f64 {
+    ln_factorial(n) - ln_factorial(k) - ln_factorial(n - k)
 }
 
 /// Returns the binomial coefficient.
